@@ -152,8 +152,11 @@ package quickfix
 //@   ensures result != nil ==> recv.#n == old(recv.#n)
 //@ iface Application.FromAdmin(recv, message, sessionID)
 //@   pure
+// ghost: number of logon notifications so far
+//@ ghost Application.logons int
 //@ iface Application.OnLogon(recv, sessionID)
-//@   pure
+//@   modifies recv.#logons
+//@   ensures recv.#logons == old(recv.#logons) + 1
 //@ iface Application.OnLogout(recv, sessionID)
 //@   pure
 //@ iface Application.OnCreate(recv, sessionID)
@@ -707,10 +710,12 @@ package quickfix
 // or the Logon carries ResetSeqNumFlag=Y that we did not ask for ourselves; C01: accepted means the expected number
 // moved on by one
 //@ func (s *session) handleLogon [C01,C06,C07,C08]
+//@   ensures [C08] @notified s.application.#logons <= old(s.application.#logons) + 1
 //@   requires @sess sessfull(s)
 //@   requires @bound s.store.#T < MaxInt64
 //@   requires @msg msgok(msg)
 //@   requires @logon islogon(msg)
+//@   atcall sendLogonInReplyTo [C08] @notyet s.application.#logons == old(s.application.#logons)
 //@   atcall MessageStore.Reset @agreed (!s.InitiateLogon && s.ResetOnLogon) || (fhas(msg.Body.FieldMap, 141) && onebyte(fval(msg.Body.FieldMap, 141), 89) && !s.sentReset)
 //@   ensures @sess sessfull(s) && s.State == old(s.State) && s.messageOut == old(s.messageOut)
 //@   ensures @nodelivery s.application.#n == old(s.application.#n)
